@@ -248,12 +248,14 @@ pub fn parse_file_internal(context: &ParseContext) -> Result<(), Error> {
         );
     }
 
-    let current_path = if !current_path.as_path().exists() {
+    // only regular files are sources: a directory of that name does not hide a file further down
+    // the search, and a device or pipe is never read
+    let current_path = if !current_path.as_path().is_file() {
         let mut new_path = PathBuf::new();
         for parent in include_paths.iter() {
             let mut full_path = parent.clone();
             full_path.push(current_path.clone());
-            if full_path.as_path().exists() {
+            if full_path.as_path().is_file() {
                 new_path = full_path;
                 break;
             }
@@ -267,6 +269,13 @@ pub fn parse_file_internal(context: &ParseContext) -> Result<(), Error> {
     } else {
         current_path
     };
+
+    if current_path.as_path().exists() && !current_path.as_path().is_file() {
+        bail!(
+            "Cannot read file {} because: it is not a regular file",
+            current_path.to_string_lossy()
+        );
+    }
 
     let mut file = match File::open(&current_path) {
         Ok(file) => file,
